@@ -29,3 +29,17 @@ claim("C29", SM,
       "against the same actions (eviction ties are nondeterministic in the spec).",
       "TLC; my transcription of the contract; CPython refcounting for __del__; configurations with min_size>=1",
       "DESIGN.md 5/C29, B.1", "BoundedDict")
+
+claim("C33", SM,
+      "StrPatchwork.tla: every buffer content over {pad,1,2} up to the length bound and every read/write/append/search "
+      "from it (TLC-enumerated, with a ghost 'search cached' bit so search/write/search histories are explored) is "
+      "replayed on StrPatchwork and compared byte for byte; random histories validated by TLC.",
+      "TLC; non-negative indices, explicit slice stops, step 1", "DESIGN.md 5/C33, B.8", "StrPatchwork")
+
+claim("C28", SM,
+      "LocationDB.tla: TLC checks offset/name injectivity, rejected-ops-unchanged, non-strict creation result and "
+      "merge completeness on all states over 3 names x 2-3 offsets x <=3 locations; every transition replayed on "
+      "LocationDB (getters cross-checked, consistency_check after every call) through an identity-free projection; "
+      "random histories over 6 names / 6 offsets with merges validated by TLC.",
+      "TLC; merge only required for non-conflicting foreign databases; live LocKey arguments", "DESIGN.md 5/C28, B.2",
+      "LocationDB")
